@@ -29,6 +29,10 @@ impl Time {
 
     /// The current `Time`
     pub fn now() -> Time {
+        #[cfg(feature = "verif")]
+        if let Some(secs) = crate::verif_clock::get() {
+            return Time(secs);
+        }
         // Safety: unwrap() can only panic if the system time is before UNIX_EPOCH
         Time(std::time::UNIX_EPOCH.elapsed().unwrap().as_secs())
     }
